@@ -78,6 +78,7 @@ func genC13(w *World, res *CheckResult) {
 	tmp := &CheckResult{Extra: map[string]interface{}{}}
 	genC10(w, tmp)
 	res.Obls = append(res.Obls, selectObls(tmp.Obls, `^ast\.Patch\[`, `^module/rewrites-go-through-ast\.Patch$`)...)
+	genBuiltinErrorSite(w, res)
 	// (c2) errors the optimizer raises at compile time carry the location of the failing operation (cells of C02)
 	{
 		tmp2 := &CheckResult{Extra: map[string]interface{}{}}
@@ -179,4 +180,70 @@ func locArg(c *ssa.Call) string {
 func init() {
 	registerProp(&propDef{id: "C13", level: "proof", gen: genC13,
 		expl: "location plumbing per function: every syntax node allocated by the parser is stamped with a token's location; parser.error and checker.error record the location of the current token / offending node (first error wins); compiler.emit records the location of the innermost node for the offset of the opcode it emits; the VM's pp is the offset of the opcode being executed; ast.Patch preserves locations; lexer tokens carry the location of their first character"})
+}
+
+// genBuiltinErrorSite: a builtin applied to a non-collection is reported at
+// that argument (the offending occurrence), not at the closure or the call:
+// the real checker.visitor.BuiltinNode is run with the first argument typed
+// int; the node handed to v.error must be Arguments[0].
+func genBuiltinErrorSite(w *World, res *CheckResult) {
+	fn := w.Func("checker.visitor.BuiltinNode")
+	if fn == nil {
+		res.Obls = append(res.Obls, missingObl("checker.visitor.BuiltinNode/exists", "function not found"))
+		return
+	}
+	lay := astLayout{w}
+	for _, name := range []string{"all", "none", "any", "one", "filter", "map", "count"} {
+		cell := "checker.BuiltinNode[" + name + "]/error-at-collection"
+		e := NewExec(w)
+		e.SafeMode = func(f *ssa.Function) string { return "panics" }
+		st := NewState()
+		e.paramMode = true
+		vv := e.havocValue(st, fn.Params[0].Type(), "v")
+		e.paramMode = false
+		st.Assume(Not(Eq(vv.One(), NilLoc)))
+		bn, args := FreshPre(st, "builtin"), FreshPre(st, "args")
+		AssumeDistinctObjs(st, bn, vv.One())
+		AssumeDistinctObjs(st, args, vv.One())
+		AssumeDistinctObjs(st, bn, args)
+		e.initFacts(st, fn, e.entryEnv(st, fn, []*Value{vv, {T: fn.Params[1].Type(), L: []*Term{bn}}}, nil))
+		a0, a1 := Fresh("collection", SVal), Fresh("closure", SVal)
+		st.Assume(Not(Eq(a0, VNil)))
+		st.Assume(Not(Eq(a1, VNil)))
+		st.Assume(Not(Eq(a0, a1)))
+		st.Store(LocField(bn, lay.off("BuiltinNode", "Name")), StrLit(name))
+		ao := lay.off("BuiltinNode", "Arguments")
+		st.Store(LocField(bn, ao), args)
+		st.Store(LocField(bn, ao+1), BV64(2))
+		st.Store(LocField(bn, ao+2), BV64(2))
+		st.Store(args, a0)
+		st.Store(LocIndex(args, BV64(1)), a1)
+		seen := 0
+		e.CallHook = func(e *Exec, st *State, fr *Frame, cc *ssa.CallCommon, callee *ssa.Function, cargs []*Value, k func(*State, []*Value)) bool {
+			switch shortName(callee) {
+			case "checker.visitor.visit":
+				// the collection operand is an int: not something a builtin can iterate
+				k(st, []*Value{{T: callee.Signature.Results().At(0).Type(), L: []*Term{typeCodeTerm(types.Typ[types.Int])}}})
+				return true
+			case "checker.visitor.error":
+				// the first error raised on this path (the visitor keeps only the first)
+				if st.ghost["error-site-seen"] == nil {
+					st.ghost["error-site-seen"] = True
+					e.AddVC(cell, "post", fn.String(), st, Not(Eq(cargs[1].One(), a0)), "the error for a non-collection operand is raised on that operand")
+				}
+				seen++
+			}
+			return false
+		}
+		e.Run(fn, []*Value{vv, {T: fn.Params[1].Type(), L: []*Term{bn}}}, st, nil)
+		if seen == 0 {
+			res.Obls = append(res.Obls, missingObl(cell, "the builtin does not reject an int operand"))
+		}
+		for _, o := range e.obls {
+			if o.Name == cell {
+				res.Obls = append(res.Obls, o)
+			}
+		}
+	}
+	res.Functions = append(res.Functions, "checker.visitor.BuiltinNode")
 }
